@@ -27,6 +27,10 @@ def world_ops(r, spec, n_ops, *, p_fault=0.0, fault_gen=None, weights=None, star
     kinds = list(w)
     ws = [w[k] for k in kinds]
     types = spec.get('types') or ['Key', 'Door', 'Exit', 'Box', 'Floor']
+    if spec.get('world') is not None and (spec.get('strip') or r.random() < 0.04):
+        # one action from every pose of one map (always on the long strips, occasionally elsewhere)
+        for a in r.sample(['ACTUATE', 'PICK_N_DROP', 'MOVE_FORWARD', 'MOVE_LEFT', 'TURN_LEFT'], 2 if spec.get('strip') else 1):
+            ops.append([0, 'scan', a, r.randrange(64)])
     while len(ops) < n_ops:
         if fault_gen is not None and r.random() < p_fault:
             ops.extend(fault_gen(r))
@@ -108,7 +112,11 @@ def simplify_single(record):
                 r2 = copy.deepcopy(record)
                 del r2['clients'][0][key][i]
                 yield r2
-    if len(cl['chain']) > 1:
+    if cl.get('nest'):
+        r2 = copy.deepcopy(record)
+        del r2['clients'][0]['nest']
+        yield r2
+    elif len(cl['chain']) > 1:
         for i in range(len(cl['chain'])):
             r2 = copy.deepcopy(record)
             del r2['clients'][0]['chain'][i]
